@@ -78,7 +78,8 @@ func genContactJSON(r *Rng, correctGroups bool) []byte {
 		c["timezone"] = tz
 	}
 	if r.Chance(50) {
-		c["last_seen_on"] = "2024-02-03T10:00:00Z"
+		// before, or (late handling, skewed clocks, a refreshed contact) after the message the session will receive
+		c["last_seen_on"] = Pick(r, []string{"2024-02-03T10:00:00Z", "2024-02-03T10:00:00Z", "2031-07-08T09:10:11Z"})
 	}
 	var us []string
 	seen := map[string]bool{}
